@@ -160,6 +160,21 @@ func (b *backend) record(h int, meth string, ints []uint64, strs [][]byte, force
 	return o
 }
 
+// intact: the string and payload arguments of a call must read at its end as they did at its
+// beginning (a decoded message is a function of its own frame alone: later frames, on this or
+// another connection, must not show through – C01/C02/C18).  Violations are reported with the
+// use-after-close events, which every lifecycle line prints.
+func (b *backend) intact(h int, meth string, now [][]byte, then [][]byte) {
+	for i := range now {
+		if i < len(then) && string(now[i]) != string(then[i]) {
+			b.mu.Lock()
+			b.uac = append(b.uac, fmt.Sprintf("argchanged:%s(h%d):%x->%x", meth, h, then[i], now[i]))
+			b.mu.Unlock()
+			return
+		}
+	}
+}
+
 // randErr draws an error value: (kind tag, errno code if any, the error).
 func (b *backend) randErr() (string, uint32, error) {
 	codes := []uint32{1, 2, 5, 13, 17, 20, 21, 22, 28, 30, 39, 61, 95, 11}
@@ -297,7 +312,9 @@ func (f *sfile) walkCommon(meth string, names []string, withAttr bool) ([]p9.QID
 		}
 		b.mu.Unlock()
 	}
-	o := b.record(f.id, meth, nil, namesBytes(names), forced...)
+	then := namesBytes(names)
+	o := b.record(f.id, meth, nil, then, forced...)
+	b.intact(f.id, meth, namesBytes(names), then)
 	if o.err != nil {
 		return nil, nil, p9.AttrMask{}, p9.Attr{}, o.err
 	}
@@ -545,7 +562,9 @@ func (f *sfile) ReadAt(p []byte, offset int64) (int, error) {
 
 func (f *sfile) WriteAt(p []byte, offset int64) (int, error) {
 	b := f.b
+	then := append([]byte(nil), p...)
 	o := b.record(f.id, "WriteAt", []uint64{uint64(offset)}, [][]byte{p})
+	b.intact(f.id, "WriteAt", [][]byte{p}, [][]byte{then})
 	if o.err != nil {
 		return 0, o.err
 	}
@@ -662,6 +681,9 @@ func (f *sfile) qidOp(meth string, ints []uint64, strs [][]byte, name string, mo
 		b.mu.Unlock()
 	}
 	o := b.record(f.id, meth, ints, strs, forced...)
+	if len(strs) > 0 {
+		b.intact(f.id, meth, [][]byte{[]byte(name)}, strs[len(strs)-1:])
+	}
 	if o.err != nil {
 		return p9.QID{}, o.err
 	}
@@ -708,7 +730,10 @@ func (f *sfile) RenameAt(oldName string, newDir p9.File, newName string) error {
 		if e != 0 {
 			forced = []linux.Errno{e}
 		}
-		return f.simple("RenameAt", []uint64{uint64(newDir.(*sfile).id)}, [][]byte{[]byte(oldName), []byte(newName)}, forced...)
+		then := [][]byte{[]byte(oldName), []byte(newName)}
+		err := f.simple("RenameAt", []uint64{uint64(newDir.(*sfile).id)}, then, forced...)
+		f.b.intact(f.id, "RenameAt", [][]byte{[]byte(oldName), []byte(newName)}, then)
+		return err
 	}
 	switch {
 	case hasPrefix(newDir.(*sfile).path, src): // into its own subtree
@@ -716,7 +741,10 @@ func (f *sfile) RenameAt(oldName string, newDir p9.File, newName string) error {
 	case len(dst) < len(src) && hasPrefix(src, dst): // onto an ancestor: a non-empty directory
 		forced = []linux.Errno{linux.ENOTEMPTY}
 	}
-	return f.simple("RenameAt", []uint64{uint64(newDir.(*sfile).id)}, [][]byte{[]byte(oldName), []byte(newName)}, forced...)
+	then := [][]byte{[]byte(oldName), []byte(newName)}
+	err := f.simple("RenameAt", []uint64{uint64(newDir.(*sfile).id)}, then, forced...)
+	f.b.intact(f.id, "RenameAt", [][]byte{[]byte(oldName), []byte(newName)}, then)
+	return err
 }
 
 func (f *sfile) UnlinkAt(name string, flags uint32) error {
@@ -729,7 +757,10 @@ func (f *sfile) UnlinkAt(name string, flags uint32) error {
 			forced = []linux.Errno{e}
 		}
 	}
-	return f.simple("UnlinkAt", []uint64{uint64(flags)}, [][]byte{[]byte(name)}, forced...)
+	then := [][]byte{[]byte(name)}
+	err := f.simple("UnlinkAt", []uint64{uint64(flags)}, then, forced...)
+	f.b.intact(f.id, "UnlinkAt", [][]byte{[]byte(name)}, then)
+	return err
 }
 
 func (f *sfile) Readdir(offset uint64, count uint32) (p9.Dirents, error) {
